@@ -74,3 +74,28 @@ func parseIn(src string, l syntax.LangVariant, opts ...syntax.ParserOption) (f *
 	})
 	return
 }
+
+
+// variantSnippets are small programs exercising constructs that only some variants accept and
+// fields that few inputs set (zsh parameter flags and modifiers, mksh forms, bats tests, nested
+// arrays …).  Harnesses that walk or encode trees run all of them on every run, so that a change
+// touching one of those fields meets a concrete input.
+var variantSnippets = []string{
+	"echo ${=a} ${==a} ${~a} ${~~a} ${^a} ${^^a} ${=~^a}", "echo ${a:h2} ${foo:t5:h2:l} ${a:u}", "echo ${(f)a} ${(s.:.)b} ${+a} ${#a}",
+	"a[1]=(b c)", "a[1,2]=(x y)", "echo ${a[(r)foo]} ${a[1,2]}", "echo <-> <1-10> *(.) **/*(om[1])", "foo &! bar &|", "for i in a; { echo $i; }",
+	"repeat 3 echo x", "if [[ a == b ]] { echo y } else { echo n }", "function f g { :; }", "echo $#", "echo ${|cmd;} ${ cmd;}", "case x { a) : ;; }",
+	"@test \"d\" { run foo; [ \"$status\" -eq 0 ]; }", "select x in a b; do :; done", "coproc NAME { cat; }", "time -p foo | bar", "let 'x=1' y++",
+	"declare -A m=([k]=v [j]=w)", "a=([2]=x y [5]=z)", "a+=([1]=Q w)", "echo ${!a[@]} ${!p*} ${a[@]:1:2} ${a/x/y} ${a//x} ${a^^} ${a@Q}",
+	"echo $'a\\tb' $\"loc\" @(a|b) !(c) <(x) >(y)", "foo |& bar", "foo &> a &>> b <<< c {fd}> d", "case x in a) ;& b) ;;& c) ;| d) ;; esac",
+	"for ((i = 0; i < 3; i++)); do :; done", "((x++)); [[ -n $a && ( b == c* || ! -f d ) ]]", "cat <<-EOF\n\tbody $x\n\tEOF\n", "cat <<'E' | cat <<E2\nq\nE\nw\nE2\n",
+	"echo `a \\`b\\`` $(c) $((d[1] ** 2))", "x=1 y=2 cmd >out 2>&1 <in", "f() ( : ); g() if a; then b; fi", "a=b local c readonly d=e export f",
+	"# lead\nfoo # trail\n# last\n", "case i in\nx)\n\ta\n\t;;\n\t#a\n#b\n\t#c\ny) ;;\nesac", "a=(\n\tx # c1\n\t# c2\n\ty\n)\n",
+}
+
+func variantSnippetSources() []string {
+	out := make([]string, len(variantSnippets))
+	for i, s := range variantSnippets {
+		out[i] = strings.ReplaceAll(strings.ReplaceAll(s, "\\n", "\n"), "\\t", "\t")
+	}
+	return out
+}
